@@ -20,9 +20,11 @@ def run_property(pid: str, prog: Program, tier: str, seed: int = 0):
     common.ANALYSED.clear()
     try:
         mod.check(prog, rep, tier)
-        rep.functions = {f"{q} [{c}]" if c else q for (c, q) in common.ANALYSED}
+        seen_q = {q for (_, q) in common.ANALYSED}
+        own_functions, own_paths = {q for q in rep.functions if q not in seen_q}, rep.paths  # what the rule module recorded itself (walkers of its own)
+        rep.functions = {f"{q} [{c}]" if c else q for (c, q) in common.ANALYSED} | own_functions
         rep.contexts |= {c for (c, q) in common.ANALYSED if c}
-        rep.paths = sum(common.ANALYSED.values())
+        rep.paths = sum(common.ANALYSED.values()) + (own_paths if own_functions else 0)
         rep.check_floors()
     except AnalysisError as e:
         err = str(e)
